@@ -232,11 +232,18 @@ def cookiePart (r : Resp) : List (Str × Str) :=
 /-- `BaseResponse.headerlist` -/
 def headerlist (r : Resp) : List (Str × Str) := storePart r ++ ctypePart r ++ cookiePart r
 
-/-- what `Ombott.wsgi` hands to `start_response` after a handler that ran `ops` and returned a
-body of `bodyLen` bytes: `_cast` does `setdefault('Content-Length', len)` first. -/
-def wsgiHeaders (ops : List Op) (bodyLen : Nat) : Resp × List (Option Err) × List (Str × Str) :=
+/-- the header list of the last-resort 500 page of `Ombott.wsgi` (a literal in the source) -/
+def catchAllHeaders : List (Str × Str) := [("Content-Type".toList, "text/html; charset=UTF-8".toList)]
+
+/-- what `Ombott.wsgi` hands to `start_response` after a handler that ran `ops` (each in its own
+`try`) and returned a body of `bodyLen` bytes: `_cast` does `setdefault('Content-Length', len)`
+first.  A response whose status was lost (`__init__` with a refused status inside the handler)
+makes the body-suppression test `100 <= _status_code` raise: `none` = the catch-all 500 page. -/
+def wsgiHeaders (ops : List Op) (bodyLen : Nat) : Resp × List (Option Err) × Option (List (Str × Str)) :=
   let (r, es) := run Resp.fresh ops
   let r' := (step r (.setdefault "Content-Length".toList (.int bodyLen))).1
-  (r', es, headerlist r')
+  match r'.status with
+  | some _ => (r', es, some (headerlist r'))
+  | Option.none => (r', es, Option.none)
 
 end Ombott.Headers
